@@ -40,12 +40,17 @@ def valid_name(ex, kind, tag):
     return z3.Concat(z3.StringVal('projects/'), p, z3.StringVal('/' + kind + '/'), l), p, l
 
 
-def name_rows(ex, db, entity, kind):
-    """constrain every row of `entity` to carry a valid resource name of `kind`; returns [(row, project, leaf)]"""
+PROJECT_VOCAB = ['p', 'pp', 'p_', 'P']     # a prefix of another, a LIKE wildcard, a case variant
+
+
+def name_rows(ex, db, entity, kind, vocab=PROJECT_VOCAB):
+    """every row of `entity` carries a valid resource name of `kind` whose project is drawn from a small vocabulary
+    (concrete strings: the solver stays on ids, flags and page parameters); returns [(row, project, leaf)]"""
     out = []
     for r in db.t[entity]:
-        n, p, l = valid_name(ex, kind, '%s%d' % (entity[:3].lower(), r.slot))
-        ex.assume(r.v['name'] == n)
+        p = vocab[ex.choose(len(vocab))]
+        l = 'r%d' % r.slot
+        r.v['name'] = 'projects/%s/%s/%s' % (p, kind, l)
         out.append((r, p, l))
     return out
 
